@@ -104,7 +104,7 @@ class OrderOracle:
             key = "|".join(pred_key(p) for p in res)
             idx = len(me.calls)
             me.calls.append((key, len(res)))
-            perms = list(itertools.permutations(range(len(res))))
+            perms = perm_menu(len(res))
             choice = me.plan.get(key, 0) if me.mode == "set" else me.plan.get(idx, 0)
             if choice >= len(perms):
                 raise core.HarnessError(f"out-of-range choice {choice} for a set of {len(res)}")
@@ -118,11 +118,33 @@ class OrderOracle:
         return False
 
 
+_MENUS = {}
+
+
+def perm_menu(n):
+    """the orders tried for a collection of n elements: all n! for n <= 4; for larger collections (none on the pinned tree) the
+    identity, the reversal, every rotation and every adjacent transposition - so that a tree with a wide state still terminates"""
+    if n not in _MENUS:
+        if n <= 4:
+            _MENUS[n] = list(itertools.permutations(range(n)))
+        else:
+            base = tuple(range(n))
+            menu = [base, base[::-1]] + [base[i:] + base[:i] for i in range(1, n)]
+            for i in range(n - 1):
+                t = list(base)
+                t[i], t[i + 1] = t[i + 1], t[i]
+                menu.append(tuple(t))
+            seen, out = set(), []
+            for m in menu:
+                if m not in seen:
+                    seen.add(m)
+                    out.append(m)
+            _MENUS[n] = out
+    return _MENUS[n]
+
+
 def fact(n):
-    r = 1
-    for i in range(2, n + 1):
-        r *= i
-    return r
+    return len(perm_menu(n))
 
 
 def explore_orders(lang, text, k, agg):
@@ -137,8 +159,17 @@ def explore_orders(lang, text, k, agg):
         sets[key] = size
     ncalls = len(oo.calls)
     keys = sorted(sets)
-    # (a1) all assignments
-    for combo in itertools.product(*[range(fact(sets[kk])) for kk in keys]):
+    # (a1) all assignments (when that product is astronomically large - never on the pinned tree - one set at a time instead)
+    total = 1
+    for kk in keys:
+        total *= fact(sets[kk])
+    if any(sets[kk] > 4 for kk in keys) or total > 20000:
+        agg.extra["order_exploration_capped(wide state: reduced permutation menu)"] += 1
+    if total > 20000:
+        combos = [tuple(c if j == i else 0 for j in range(len(keys))) for i in range(len(keys)) for c in range(fact(sets[keys[i]]))]
+    else:
+        combos = itertools.product(*[range(fact(sets[kk])) for kk in keys])
+    for combo in combos:
         plan = dict(zip(keys, combo))
         with OrderOracle("set", plan):
             got = measure(lang, text)
@@ -327,8 +358,9 @@ def explore_walk(tree, agg, shard=0, nshards=1):
             agg.transitions += 1
             agg.state(["walk", list(combo)])
             orders.add(tuple(order))
-            if points != w0.points:
-                raise core.HarnessError(f"walk choice points changed between executions: {points} vs {w0.points}")
+            if points != w0.points and doc == base:
+                # the set of directories visited depends on the listing order although the result does not: not this property's business
+                agg.extra["walks_visiting_other_directories_with_equal_result"] += 1
             if doc != base:
                 out.append(("report-depends-on-traversal-order", {}, {"plan": plan}, f"files listed {order} vs {order0}"))
                 break
@@ -511,6 +543,11 @@ def corpus_digest(order):
     for lang in (canon.LANGS if order == 0 else list(reversed(canon.LANGS))):
         for t in probes(lang):
             items.append((lang, hashlib.md5(t.encode()).hexdigest(), measure(lang, t)))
+        # non-canonical constructs too (modifiers after the parameter list, generics, decorators ...): a language definition
+        # that builds its pattern from a set shows only on inputs that use two or more members of that set
+        from mc.gen import wild
+        for _name, t in wild.snippets(lang):
+            items.append((lang, hashlib.md5(t.encode()).hexdigest(), measure(lang, t)))
     return core.digest(sorted(items, key=lambda x: (x[0], x[1])))
 
 
@@ -542,8 +579,90 @@ def seed_differential(seed):
     return results
 
 
+# ---------------------------------------------------------------------------------------
+# (e) the clock: a result must not depend on how much time passes while a file is analysed
+# ---------------------------------------------------------------------------------------
+
+class FastClock:
+    """every clock of the time module (and every codelimit module global bound to one of them) advances 100 s per reading"""
+    NAMES = ["time", "monotonic", "perf_counter", "process_time", "time_ns", "monotonic_ns", "perf_counter_ns", "process_time_ns"]
+
+    def __enter__(self):
+        import time as _time
+
+        self.saved, self.now, self.readings = [], [2.0e9], 0
+        me = self
+
+        def mk(ns):
+            def clock():
+                me.now[0] += 100.0
+                me.readings += 1
+                return int(me.now[0] * 1e9) if ns else me.now[0]
+            return clock
+        fake = {getattr(_time, n): mk(n.endswith("_ns")) for n in self.NAMES if hasattr(_time, n)}
+        for n in self.NAMES:
+            if hasattr(_time, n):
+                self.saved.append((_time, n, getattr(_time, n)))
+                setattr(_time, n, fake[getattr(_time, n)])
+        for mname, mod in list(sys.modules.items()):
+            if mod is not None and (mname == "codelimit" or mname.startswith("codelimit.")):
+                for k, v in list(vars(mod).items()):
+                    try:
+                        hit = v in fake
+                    except TypeError:
+                        continue
+                    if hit:
+                        self.saved.append((mod, k, v))
+                        setattr(mod, k, fake[v])
+        return self
+
+    def __exit__(self, *exc):
+        for obj, k, v in reversed(self.saved):
+            setattr(obj, k, v)
+        return False
+
+
+def clock_texts(lang, nfiles):
+    from mc.gen import malformed
+
+    out = [(f"corpus:{n}", malformed.corpus_text(lang, n)) for n in malformed.corpus_files(lang)[:nfiles]]
+    # a generated file of several thousand tokens (budgets are usually checked every N tokens)
+    unit = harness.py_function("f{}", 6) if lang == "Python" else None
+    if lang == "Python":
+        out.append(("generated-long", "\n".join(harness.py_function(f"f{i}", 6) for i in range(150))))
+    elif lang in ("JavaScript", "TypeScript"):
+        out.append(("generated-long", "\n".join(harness.js_function(f"f{i}", 6) for i in range(150))))
+    else:
+        body = "".join(f"int f{i}(int a)\n{{\n    a = a + {i};\n    return a;\n}}\n\n" for i in range(150))
+        out.append(("generated-long", body if lang in ("C", "C++") else "class K {\n" + body + "}\n"))
+    return out
+
+
+def eval_clock(lang, nfiles):
+    out, n = [], 0
+    for name, text in clock_texts(lang, nfiles):
+        base = measure(lang, text)
+        with FastClock() as fc:
+            got = measure(lang, text)
+        n += 1
+        if got != base:
+            out.append(("result-depends-on-the-clock", {"language": lang}, {"file": name},
+                        f"{lang} {name}: {len(base) if isinstance(base, list) else base} functions normally, {len(got) if isinstance(got, list) else got} when every clock reading "
+                        f"is 100 s later than the previous one ({fc.readings} readings)"))
+    return n, out
+
+
 def _block(block, agg):
     kind = block[0]
+    if kind == "clock":
+        _, lang, nfiles = block
+        n, viol = eval_clock(lang, nfiles)
+        case = {"part": "clock", "language": lang, "files": nfiles}
+        agg.case(case, True, f"{n} files under a fast clock", sample=False)
+        agg.transitions += 2 * n
+        for kd, sig, extra, d in viol:
+            agg.violation(kd, sig, dict(case, **extra), d)
+        return
     if kind == "order":
         _, lang, pi, k = block
         text = probes(lang)[pi]
@@ -616,6 +735,9 @@ def replay(case):
         tname = case.get("tree") or ("nfc" if case.get("of") == 0 else "main")
         viol, _ = explore_walk(WALK_TREES[tname], agg, case.get("shard", 0), max(1, case.get("of", 1)))
         return [{"kind": k, "sig": s, "detail": d} for k, s, _, d in viol]
+    if case["part"] == "clock":
+        _, viol = eval_clock(case["language"], case["files"])
+        return [{"kind": k, "sig": s, "detail": d} for k, s, _, d in viol]
     if case["part"] == "history":
         viol, _ = eval_history(case["seq"], reference_results())
         return [{"kind": k, "sig": s, "detail": d} for k, s, d in viol]
@@ -627,7 +749,8 @@ def run(ctx: core.Ctx):
     k = ctx.pick(1, 2)
     hist_len = ctx.pick(2, 3)
     ctx.bounds = {"per_call_deviation_bound": k, "history_max_length": hist_len, "history_menu": menu_size(), "walk_tree": sorted(WALK_TREE), "walk_tree_mixed_languages": sorted(MIX_TREE),
-                  "probes_per_language": len(probes("Python"))}
+                  "probes_per_language": len(probes("Python")),
+                  "clock": "every corpus file (2 / 8 per language) and one generated 150-function file analysed once normally and once with all time-module clocks advancing 100 s per reading"}
     ctx.rule = ("states = distinct explored choice assignments (predicate-order plans, walk plans) + distinct global-state fingerprints seen in histories; "
                 "transitions = real executions (one analysis / scan / history step each). case = (language, probe file) for orders, the tree for walks, a "
                 "sequence of menu items for histories. (d) is sampling and reported in counters only.")
@@ -643,6 +766,8 @@ def run(ctx: core.Ctx):
     blocks.append(("walk", 0, 0))  # the NFC/NFD tree, all orders
     for sh in range(4):
         blocks.append(("walk", sh, 4, "mix"))  # header + C + C++ and byte-identical twins under two languages, all orders
+    for lang in canon.LANGS:
+        blocks.append(("clock", lang, ctx.pick(2, 8)))
     refs = reference_results()
     seqs = []
     for n in range(1, hist_len + 1):
